@@ -40,8 +40,10 @@ pub fn run_cpu(ch: &mut Chooser, ctx: &mut Ctx) {
     let layer = Layer::ALL[ch.pick_usize("cpu.layer", 4)];
     let fam = layer.family();
     let scale = ch.weighted("cpu.scale", &[80, 20]) as u8;
-    let (k, r) = gen_counts(ch, fam, scale);
-    let b = gen_bytes(ch, 258);
+    // one run in fifty codes a few long shards (16 KiB .. 1 MiB)
+    let big = ch.chance("cpu.big", 1, 50);
+    let (k, r) = gen_counts(ch, fam, if big { 4 } else { scale });
+    let b = if big { gen_bytes_big(ch) } else { gen_bytes(ch, 258) };
     let high = envelope::effective_high(fam, k, r);
     let kind = Kind { layer, engine: EngineKind::Default };
     let data_seed = ch.seed64("data.seed");
